@@ -2484,8 +2484,8 @@ func (c *compiler) VisitWhileStmt(s *ast.WhileStmt) ast.VisitResult {
 		c.cbb = trueLeave
 	case token.WIEDERHOLE:
 		counter := c.NewAlloca(ddpint)
-		cond, _, _ := c.evaluate(s.Condition)
-		c.cbb.NewStore(cond, counter)
+		cond, condTyp, _ := c.evaluate(s.Condition)
+		c.cbb.NewStore(c.floatOrByteAsInt(cond, condTyp), counter) // the count may be a Byte
 		condBlock, body, bodyScope := c.cf.NewBlock(""), c.cf.NewBlock(""), newScope(c.scp)
 		breakLeave := c.cf.NewBlock("")
 		c.curLoopScope, c.curLeaveBlock, c.curContinueBlock = bodyScope, breakLeave, condBlock
